@@ -47,6 +47,7 @@ def cmd_check(pid, tier, seed):
             print(f"STALE-FINDING: property={pid} {sig} not re-observed in this tier")
     rc = 0
     reported = 0
+    unreproduced = 0
     for sig, fl in n.items():
         if reported >= MAX_REPORTED:
             break
@@ -56,16 +57,21 @@ def cmd_check(pid, tier, seed):
         p = subprocess.run([sys.executable, "-m", "mc", "replay", path], cwd=ROOT,
                            capture_output=True, text=True)
         if p.returncode != 1:
-            print(f"HARNESS-ERROR property={pid} replay {path} did not reproduce "
-                  f"(exit {p.returncode}): {p.stdout[-300:]} {p.stderr[-300:]}")
-            rc = max(rc, 2)
+            # the observation depends on what the worker process had processed before (or on time): it is not
+            # reported as a violation of this property; alone it makes the run a harness error (exit 2)
+            print(f"UNREPRODUCED property={pid} replay {path} did not reproduce in a fresh process "
+                  f"(exit {p.returncode}): {p.stdout[-200:]} {p.stderr[-200:]}")
+            unreproduced += 1
             continue
         print(f"VIOLATION property={pid} replay={path}")
         print(f"  signature: {sig}\n  what: {f.what} (x{len(fl)})")
         reported += 1
-        rc = max(rc, 1) if rc != 2 else 2
-    if len(n) > reported:
-        print(f"  ... and {len(n) - reported} more distinct violation signatures")
+        rc = 1
+    if unreproduced and rc == 0:
+        print(f"HARNESS-ERROR property={pid} {unreproduced} failures did not reproduce from their replay files")
+        rc = 2
+    if len(n) > reported + unreproduced:
+        print(f"  ... and {len(n) - reported - unreproduced} more distinct violation signatures")
     nviol = sum(len(v) for v in n.values())
     evidence.write(pid, tier, seed, res.stats, rule=res.rule, exhaustive=res.exhaustive,
                    bounds=res.bounds, alphabet=res.alphabet, assumptions=res.assumptions,
